@@ -61,9 +61,13 @@ let () =
       | "svec" :: toks ->
         let ops = List.map svec_op toks in
         let (s, outs) = vrun vinit ops in
+        let sv = svalid [[]; []; []] ops in
+        let (_, souts) = srun0 [[]; []; []] ops in
         let b = Buffer.create 64 in
         List.iter (function Some l -> Buffer.add_string b ("Q:" ^ String.concat "." (List.map (fun v -> string_of_int (int_of_nat v)) l) ^ " ") | None -> ()) outs;
         Buffer.add_string b (if vfinal_ok s then "final=ok" else "final=bad");
+        if not sv then Buffer.add_string b " INVALID-HISTORY";
+        if outs <> souts then Buffer.add_string b " MODEL-DIFFERS-FROM-SPEC";
         print_endline (Buffer.contents b)
       | _ -> print_endline "?"
     done
